@@ -46,6 +46,7 @@ type c16Case struct {
 	Dollar     bool   `json:"dollar"`             // the file names contain $HOME / ${USER}: they are names, not references
 	NowStyle   int    `json:"nowstyle,omitempty"` // how the Now entry of the configuration file is written: 0 midnight Z, 1 01:30+02:00, 2 22:30-05:00, 3 midnight +00:00
 	CfgStyle   int    `json:"cfgstyle,omitempty"` // layout of the configuration file: 0 plain, 1 lower case with blanks, 2 CRLF, 3 quoted values, 4 comments and indentation
+	HomeBin    bool   `json:"homebin,omitempty"`  // Channel none: run the real binary under the private home directory
 	CfgRel     bool   `json:"cfgrel,omitempty"`   // the configuration file is named relative to the working directory, through a link to a directory and back up
 	OddNames   int    `json:"oddnames,omitempty"` // 1, 2: the data files have short names relative to the working directory that look like something else ("-", "--", "~", "*", "%s"): they are file names
 	DepthMul   int    `json:"depthmul,omitempty"` // >1: the four distinguishable depth values are 1..4 times this factor (depths far above the default)
@@ -363,7 +364,12 @@ func checkC16(c c16Case, ctx *vCtx) *vFailure {
 		global = append(global, []string{"--no-database=false", "--no-database=0"}[len(global)%2])
 	}
 
-	useBin := c.Channel == "default"
+	// HomeBin: no configuration file anywhere the documentation names, the real binary under a private home directory
+	// (which holds stray files at places the documentation does not name)
+	useBin := c.Channel == "default" || (c.Channel == "none" && c.HomeBin)
+	if c.Channel == "none" && c.HomeBin {
+		ctx.Label("no-config-real-binary-private-home")
+	}
 	run := func(args ...string) c16Run {
 		all := append(append([]string{}, global...), args...)
 		ctx.Run(1)
@@ -640,6 +646,7 @@ func genC16(t *rapid.T) c16Case {
 		Dollar:     rapid.IntRange(0, 3).Draw(t, "dollar") == 0,
 		OddNames:   []int{0, 0, 0, 0, 1, 2, 3}[rapid.IntRange(0, 6).Draw(t, "oddnames")],
 		CfgRel:     rapid.IntRange(0, 5).Draw(t, "cfgrel") == 0,
+		HomeBin:    rapid.IntRange(0, 2).Draw(t, "homebin") == 0,
 	}
 	if rapid.IntRange(0, 3).Draw(t, "pad") == 0 {
 		c.CfgPad = []int{3000, 4090, 5000, 20000}[rapid.IntRange(0, 3).Draw(t, "padn")]
